@@ -519,12 +519,31 @@ func (r *Run) Main(meta Meta, engines ...Engine) {
 				if reps < 1 {
 					reps = 1
 				}
+				// under a watchdog that persists the scenario: if the listed scenario now hangs or
+				// crashes instead of failing the listed way, that is a different violation and the
+				// driver must be able to find and replay it
+				wd := r.StartWatchdog(e.Name, 0, 60*time.Second)
 				for i := 0; i < reps; i++ {
-					if f := e.Replay(k.Scenario); f != nil && f.Key == k.Key {
+					wd.Enter(json.RawMessage(k.Scenario))
+					r.SetCurrent(e.Name, 0, json.RawMessage(k.Scenario))
+					f := e.Replay(k.Scenario)
+					wd.Leave()
+					r.ClearCurrent(0)
+					if f != nil && f.Key == k.Key {
 						r.knownRepro[k.Key] = true
 						break
 					}
+					if f != nil {
+						// the listed scenario fails, but differently from what is listed
+						f.Engine = e.Name
+						var sc any
+						_ = json.Unmarshal(k.Scenario, &sc)
+						f.Scenario = sc
+						r.Fail(f)
+						break
+					}
 				}
+				wd.Stop()
 			}
 		}
 	}
